@@ -1055,6 +1055,31 @@ func isResultOf(e ast.Expr) bool {
 }
 
 // calleeResultType resolves the type of result idx of a callee named by text (package-level or qualified functions).
+// specStaticType is the static type of a name or a chain of field selections in a contract expression (nil if unknown).
+func (x *Unit) specStaticType(e ast.Expr, c *specCtx) types.Type {
+	switch f := ast.Unparen(e).(type) {
+	case *ast.Ident:
+		if v, ok := c.names[f.Name]; ok && v.Typ != nil {
+			return v.Typ
+		}
+		if c.pkg != nil {
+			if o, ok := c.pkg.Scope().Lookup(f.Name).(*types.Var); ok {
+				return o.Type()
+			}
+		}
+	case *ast.SelectorExpr:
+		xt := x.specStaticType(f.X, c)
+		if xt == nil {
+			return nil
+		}
+		obj, _, _ := types.LookupFieldOrMethod(xt, true, c.pkgOf(xt), f.Sel.Name)
+		if o, ok := obj.(*types.Var); ok {
+			return o.Type()
+		}
+	}
+	return nil
+}
+
 func (x *Unit) calleeResultType(e ast.Expr, idx int, c *specCtx) types.Type {
 	var fn *types.Func
 	switch f := e.(type) {
@@ -1068,6 +1093,20 @@ func (x *Unit) calleeResultType(e ast.Expr, idx int, c *specCtx) types.Type {
 			fn, _ = c.pkg.Scope().Lookup(f.Name).(*types.Func)
 		}
 	case *ast.SelectorExpr:
+		if _, plain := f.X.(*ast.Ident); !plain {
+			// a method of a field of a named value: recv.f.M
+			if xt := x.specStaticType(f.X, c); xt != nil {
+				obj, _, _ := types.LookupFieldOrMethod(xt, true, c.pkgOf(xt), f.Sel.Name)
+				switch o := obj.(type) {
+				case *types.Func:
+					fn = o
+				case *types.Var:
+					if sig, ok := under(o.Type()).(*types.Signature); ok && idx < sig.Results().Len() {
+						return sig.Results().At(idx).Type()
+					}
+				}
+			}
+		}
 		if id, ok := f.X.(*ast.Ident); ok {
 			if v, isName := c.names[id.Name]; isName && v.Typ != nil {
 				// a method (or func-typed field) of a named value of the contract: recv.M
